@@ -7,6 +7,7 @@
      every column has a type (BIGINT / DOUBLE PRECISION / TEXT) and a NOT NULL flag.
    * statements: INSERT of full-width rows [RETURNING star], DELETE [WHERE e] [RETURNING star],
      UPDATE SET c_i = e_i, ... [WHERE e] [RETURNING star], TRUNCATE.
+   * SMissing stands for any statement on a table that does not exist (refused, no effect).
    * results: RAff n ret (affected-row count, RETURNING rows) or RErr (the statement is refused
      and, by the reference, has NO effect).
    * `spec_step` returns None where the reference does not say (the WHERE predicate or a SET
@@ -25,7 +26,8 @@ Inductive stmt :=
 | SInsert (rows : list row) (ret : bool)
 | SDelete (w : option expr) (ret : bool)
 | SUpdate (sets : list (nat * expr)) (w : option expr) (ret : bool)
-| STruncate.
+| STruncate
+| SMissing.          (* a statement that names a table which does not exist *)
 
 (* RPanic / RUnmod are never produced by the reference: RPanic is an observation (the
    implementation panicked), RUnmod is the implementation model's "outside the modelled
@@ -59,6 +61,22 @@ Fixpoint row_fits (tys : list cty) (r : row) : bool :=
   | _, _ => false
   end.
 
+(* a text literal where a number is expected: a type error (the statement must be refused) *)
+Definition type_err (ty : cty) (v : value) : bool :=
+  match v, ty with
+  | VText _, TInt | VText _, TFloat => true
+  | _, _ => false
+  end.
+(* every value of the row fits its column or is such a type error (other mismatches -- a number
+   for a TEXT column, an integer for a DOUBLE column ... -- are coercion questions on which the
+   reference does not speak) *)
+Fixpoint row_known (tys : list cty) (r : row) : bool :=
+  match tys, r with
+  | [], [] => true
+  | ty :: tys', v :: r' => (fits ty v || type_err ty v) && row_known tys' r'
+  | _, _ => false
+  end.
+
 Fixpoint nn_cols (nn : list bool) (r : row) : bool :=
   match nn, r with
   | b :: nn', v :: r' => (negb b || negb (is_null v)) && nn_cols nn' r'
@@ -72,7 +90,7 @@ Definition nn_ok (sch : schema) (r : row) : bool :=
 Definition key_conflict (sch : schema) (t : table) (r : row) : bool :=
   keyed sch && negb (is_null (key_of r)) && existsb (fun r' => value_eqb (key_of r') (key_of r)) t.
 Definition row_ok (sch : schema) (t : table) (r : row) : bool :=
-  nn_ok sch r && negb (key_conflict sch t r).
+  row_fits (s_tys sch) r && nn_ok sch r && negb (key_conflict sch t r).
 (* every row of the statement is acceptable, each one against the table extended by the rows
    before it *)
 Fixpoint ins_ok (sch : schema) (t : table) (rows : list row) : bool :=
@@ -140,7 +158,7 @@ Definition ret_of (ret : bool) (rows : list row) : option (list row) := if ret t
 Definition spec_step (sch : schema) (t : table) (s : stmt) : option (result * table) :=
   match s with
   | SInsert rows ret =>
-      if forallb (row_fits (s_tys sch)) rows then
+      if forallb (row_known (s_tys sch)) rows then
         if ins_ok sch t rows then Some (RAff (zlen rows) (ret_of ret rows), t ++ rows)
         else Some (RErr, t)
       else None
@@ -159,6 +177,7 @@ Definition spec_step (sch : schema) (t : table) (s : stmt) : option (result * ta
         end
       else None
   | STruncate => Some (RAff (zlen t) None, [])
+  | SMissing => Some (RErr, t)
   end.
 
 (* the observations the reference predicts for a history, statement by statement; COUNT star is
